@@ -194,6 +194,29 @@ func checkC18(p *Prog, r *Report) {
 	r.Floor("composite-key-types", len(impls), 4)
 	for _, kt := range impls {
 		checkTypedKey(p, r, kp, kt)
+		// a decoded key owns its components: FromByteSlices / FromStrings assign each field, they never write into the storage the
+		// receiver's slices already have (append(k.Addr[:0], …), copy(k.Addr, …)) — a key variable that is decoded again (a loop
+		// over store entries) would otherwise change the keys already handed out, which share that storage
+		for _, mn := range []string{"FromByteSlices", "FromStrings"} {
+			fn := p.MethodOf(kt, mn)
+			if fn == nil {
+				continue
+			}
+			var reuse *msgWrite
+			for _, w := range writesThrough(p, fn, 0, 0, "", map[string]bool{}) {
+				if strings.HasPrefix(w.How, "append onto") || strings.HasPrefix(w.How, "copy into") {
+					w := w
+					reuse = &w
+				}
+			}
+			key := kp("AGREE", shortPkg(kt.String())+"#"+mn+"-assigns-fresh-components")
+			if reuse == nil {
+				r.OK(key, "decoding assigns the key's fields; it does not write into storage earlier copies of the key share", p.FnPos(fn), "no append onto / copy into the receiver's existing slices")
+			} else {
+				r.Fail(key, "decoding assigns the key's fields; it does not write into storage earlier copies of the key share", p.Pos(reuse.Instr.Pos()),
+					fmt.Sprintf("%s.%s reuses the receiver's storage (%s in %s): copies of the key made before the next decode (keys = append(keys, key) in a listing loop) share that backing array and silently change to the last decoded value", shortPkg(kt.String()), mn, reuse.How, FuncName(reuse.Fn)))
+			}
+		}
 	}
 	// ---- D5: separator -------------------------------------------------------------------------
 	sepC, okSep := p.ConstVal(Rel(aolTypesPkg), "GenesisKeySeparator")
@@ -246,7 +269,54 @@ func checkC18(p *Prog, r *Report) {
 				r.Check(okc, kp("CONST", FuncName(fn)+"→"+nm+"#separator@"+p.Pos(cs.Instr.Pos())), "export, import and validation all use the one separator constant", p.Pos(cs.Instr.Pos()), sepC, "a different separator is used here: "+sa.String())
 			}
 		}
-		r.Floor("string-key-call-sites", n, 12)
+		r.Floor("string-key-call-sites", n, 2)
+		// every genesis map key the AOL export writes is compkey.EncodeToString(<typed key>, separator): the string form is
+		// strings.Join(key.Strings(), sep), which FromStrings(strings.Split(s, sep)) inverts because no component contains sep.
+		// Any other way of joining the components (path.Join cleans "." and ".." segments, fmt with another verb, …) is not inverted.
+		if exp := p.Func(Rel("x/aol"), "ExportGenesis"); exp != nil {
+			eo := NewOrigin(p, exp)
+			nKeys := 0
+			for _, b := range exp.Blocks {
+				for _, in := range b.Instrs {
+					mu, ok := in.(*ssa.MapUpdate)
+					if !ok {
+						continue
+					}
+					if bt, isB := mu.Key.Type().Underlying().(*types.Basic); !isB || bt.Info()&types.IsString == 0 {
+						continue
+					}
+					nKeys++
+					kt := eo.Of(mu.Key)
+					fld, _ := rawFieldLoad(mu.Map)
+					okKey := kt.IsCall("types/compkey.EncodeToString") && len(kt.Args) == 2 && kt.Args[1].Op == "const" && kt.Args[1].Name == sepC
+					r.Check(okKey, kp("ORIGIN", "x/aol.ExportGenesis#"+fld+"-key=EncodeToString(key,sep)"), "the string form of an exported key is compkey.EncodeToString(key, GenesisKeySeparator), the form DecodeFromString inverts", p.Pos(mu.Pos()),
+						clip(kt.String(), 120), "the exported map key is "+clip(kt.String(), 200)+", not compkey.EncodeToString(key, "+sepC+"): a key whose components the other joiner rewrites (\".\", \"..\", empty segments) cannot be parsed back")
+				}
+			}
+			r.Floor("aol-exported-string-keys", nKeys, 4)
+		}
+		// the string decoder itself: Split with the separator handed in
+		for name, want := range map[string]string{"DecodeFromString": "strings.Split"} {
+			fn := sp.Func(name)
+			if fn == nil {
+				r.Fail(kp("AGREE", "compkey."+name+"#anchor"), "anchor", compkeyPkg, name+" not found")
+				continue
+			}
+			var hit ssa.CallInstruction
+			for _, cs := range callSites(fn) {
+				if cs.Name == want {
+					hit = cs.Instr
+				}
+			}
+			okSep := false
+			if hit != nil && len(hit.Common().Args) == 2 {
+				if prm, isP := hit.Common().Args[1].(*ssa.Parameter); isP && prm == fn.Params[len(fn.Params)-1] || name == "DecodeFromString" && hit.Common().Args[1] == ssa.Value(fn.Params[1]) {
+					okSep = true
+				}
+			}
+			r.Check(hit != nil && okSep, kp("AGREE", "compkey."+name+"#"+want+"(·, sep)"), "the string form joins / splits the components with exactly the separator handed in", p.FnPos(fn),
+				want+" with the separator parameter", name+" does not call "+want+" with its separator parameter")
+		}
 	}
 }
 
